@@ -422,7 +422,9 @@ class ExceptionInfo:
         """
         type_str = exc_type.__qualname__
         type_mod = exc_type.__module__
-        if type_mod not in ("__main__", "__builtin__", "exceptions", "builtins"):
+        if type_mod not in ("__main__", "builtins"):
+            if not isinstance(type_mod, str):
+                type_mod = '<unknown>'  # as the traceback module prints it
             type_str = f'{type_mod}.{type_str}'
         val_str = _some_str(exc_value)
         tb_info = cls.tb_info_type.from_traceback(traceback)
